@@ -110,11 +110,35 @@ def check_storage(db, rep, units=None, floors=True):
     rep.sample('E.static', '%d objects with static/thread storage: %d thread_local, %d const, %d other' %
                (len(globs), len(tls_objs), len(globs) - len(tls_objs) - n_mut, n_mut))
     # thread-exit: thread-local owners of heap blocks must release them
+    import respair
+    holder_findings, _n = respair.analyse_holders(db, list(units or UNITS))
+    incomplete = {}
+    for (rec, member, alloc, hsite, what, where) in holder_findings:
+        incomplete.setdefault(rec, []).append((member, alloc, hsite, what, where))
     for site, unit, g in tls_objs:
         t = g.get('t', '')
         if holds_heap(t, recs) and not releases(t, recs):
             rep.fail('E.tls.dtor', g['name'], unit.loc(g), 'a thread-local object that can hold heap blocks releases them when its thread ends',
                      'type %s has no destructor: blocks held at thread exit are lost' % t, g.get('function'))
+            continue
+        # the destructor exists: it must release every member the class allocates (by value, transitively)
+        bad = None
+        stack, seen = [elem_type(t)], set()
+        while stack and bad is None:
+            x = stack.pop()
+            if x in seen:
+                continue
+            seen.add(x)
+            if x in incomplete:
+                bad = (x, incomplete[x][0])
+            r = recs.get(x)
+            if r is not None:
+                stack.extend(elem_type(f['t']) for f in r['fields'] if not elem_type(f['t']).endswith('*'))
+        if bad is not None:
+            rec, (member, alloc, hsite, what, where) = bad
+            rep.fail('E.tls.dtor', g['name'], where, 'a thread-local object that can hold heap blocks releases them when its thread ends',
+                     'thread-local %s is a %s, whose member %s (allocated by %s at %s) is not given back: %s' % (g['name'], rec, member, alloc, hsite, what),
+                     g.get('function'))
         else:
             rep.ok('E.tls.dtor')
     return tls_objs
